@@ -989,6 +989,10 @@ class Exec:
             states = nxt
         return states
 
+    def s_FunctionDef(self, n, st):
+        # a nested helper: its body is not executed here; calls to it need a callee contract (cx.call(<name>, ...)) like any other call
+        st = st.fork(); st.vars[n.name] = V('cls', n.name); return [st]
+
     def s_Pass(self, n, st): return [st]
     def s_Global(self, n, st): return [st]
     def s_Nonlocal(self, n, st): return [st]
